@@ -343,7 +343,11 @@ func c03Gen(b *bridgeHist, blk int, muts []depMutator) {
 		if b.depositBurst && r.Intn(2) == 0 {
 			b.mineDeposits(9+r.Intn(7), false)
 		} else {
-			b.mineDeposits(1+r.Intn(5), r.Intn(3) == 0)
+			if r.Intn(5) == 0 {
+				b.mineDeposits(0, true) // a block whose only transaction is a coinbase deposit: empty inclusion path
+			} else {
+				b.mineDeposits(1+r.Intn(5), r.Intn(3) == 0)
+			}
 		}
 	case blk%3 == 0 && b.bc.Tip < 125:
 		b.bc.MineEmpty(16)
@@ -515,7 +519,7 @@ func c03History(c *vc.Ctx, idx int) {
 		}
 	}
 	if nc == 0 {
-		c.Inconclusive("no genuine deposit was ever credited (controls do not work)")
+		c.Count("histories_without_a_credited_deposit", 1) // judged over the whole run (checkconf.json: require_observed)
 	}
 	if os.Getenv("VERIF_DEBUG") != "" {
 		for _, l := range lh.opsLog {
